@@ -16,6 +16,7 @@ REPLAY_DIR = os.path.join(VERIF, 'replays')
 FINDINGS_FILE = os.path.join(VERIF, 'known_findings.json')
 
 MAX_VIOL_KEPT = 60          # per partial; the total is still counted
+MAX_SIGS_KEPT = 400
 MAX_REPLAYS = 5             # replay files written per run
 
 
@@ -63,6 +64,7 @@ class Partial(object):
         self.nviol = 0
         self.samples = []
         self.hist = collections.Counter()   # free-form histogram (exception classes, ...)
+        self.sigs = collections.Counter()   # violations per signature (complete, not capped)
 
     def outcome(self, o):
         self.outcomes.add(o)
@@ -73,7 +75,10 @@ class Partial(object):
 
     def violation(self, sig, case, detail, expected=None, observed=None):
         self.nviol += 1
-        if len(self.viol) < MAX_VIOL_KEPT:
+        first = sig not in self.sigs
+        self.sigs[sig] += 1
+        # the first example of every distinct signature is always kept (so that nothing hides behind the cap)
+        if len(self.viol) < MAX_VIOL_KEPT or (first and len(self.sigs) <= MAX_SIGS_KEPT):
             self.viol.append({'sig': sig, 'case': jsonable(case), 'detail': detail,
                               'expected': jsonable(expected), 'observed': jsonable(observed)})
 
@@ -82,10 +87,16 @@ class Partial(object):
         self.hist.update(other.hist)
         self.outcomes |= other.outcomes
         self.nviol += other.nviol
+        self.sigs.update(other.sigs)
         self.viol.extend(other.viol)
         if len(self.viol) > 4 * MAX_VIOL_KEPT:
             self.viol.sort(key=_viol_key)
-            del self.viol[4 * MAX_VIOL_KEPT:]
+            seen, keep = set(), []
+            for v in self.viol:
+                if len(keep) < 4 * MAX_VIOL_KEPT or v['sig'] not in seen:
+                    keep.append(v)
+                seen.add(v['sig'])
+            self.viol = keep
         for s in other.samples:
             if len(self.samples) < 6:
                 self.samples.append(s)
@@ -210,6 +221,17 @@ class Report(object):
             print(l)
         if nondet and rc == 0:
             rc = 2
+        # every signature seen (complete counters) must be explained by a kept example or a known finding
+        allsigs = collections.Counter()
+        for part in self.parts.values():
+            allsigs.update(part['partial'].sigs)
+        kept_sigs = {v['sig'] for v in all_viol}
+        lost = [sg for sg in allsigs if sg not in kept_sigs and
+                not any(re.fullmatch(f['sig_regex'], sg) for f in known)]
+        if lost:
+            print('HARNESS-ERROR property=%s %d violation signatures without a kept example: %r' % (self.pid, len(lost), lost[:5]))
+            if rc == 0:
+                rc = 2
         if overflow and not unknown and not matched:
             rc = 2
 
